@@ -395,6 +395,22 @@ func dataMovementCheck(b, a *snap) string {
 			x1, x2 := top(1), top(0)
 			d = append(d[:n-2:n-2], x2, x1, x2)
 		}
+	case v == 0x7e: // CAT
+		if under = !need(2); !under {
+			x := append(append([]byte{}, top(1)...), top(0)...)
+			d = append(d[:n-2:n-2], x)
+		}
+	case v == 0x7f: // SPLIT (only for plainly encoded small positions; anything else is left to the interpreter)
+		if !need(2) {
+			under = true
+			break
+		}
+		pos, okNum := smallNum(top(0))
+		x := top(1)
+		if !okNum || pos < 0 || pos > len(x) {
+			return ""
+		}
+		d = append(d[:n-2:n-2], append([]byte{}, x[:pos]...), append([]byte{}, x[pos:]...))
 	case v == 0x82: // SIZE
 		if under = !need(1); !under {
 			d = append(d, scriptNumBytes(len(top(0))))
@@ -410,6 +426,25 @@ func dataMovementCheck(b, a *snap) string {
 			op.val, b.scriptIdx, b.opIdx, stackStr(a.data), stackStr(d), len(a.alt), len(al))
 	}
 	return ""
+}
+
+// smallNum decodes a minimally encoded non-negative script number of at most 2 bytes.
+func smallNum(b []byte) (int, bool) {
+	switch len(b) {
+	case 0:
+		return 0, true
+	case 1:
+		if b[0]&0x80 != 0 || b[0] == 0 {
+			return 0, false
+		}
+		return int(b[0]), true
+	case 2:
+		if b[1]&0x80 != 0 || (b[1] == 0 && b[0]&0x80 == 0) {
+			return 0, false
+		}
+		return int(b[0]) | int(b[1])<<8, true
+	}
+	return 0, false
 }
 
 func stackStr(s [][]byte) string {
